@@ -63,6 +63,7 @@ type SliceV struct {
 	Back   *Term // identity of the backing store (Ref); contents live in the heap map "slice#<sort>"
 	ArrPtr *Ptr  // slice over a local array cell (varargs): elements are read through the cell
 	Off    int   // with ArrPtr: constant offset
+	Temp   bool  // backing store copied from a caller-built temporary (variadic arguments): callees do not write it
 }
 
 type FuncV struct {
